@@ -243,6 +243,8 @@ class Program:
         # syntactic sugar first (applies to every tree): walrus, conditional expressions, all/any
         normalise.desugar_walrus(trees)
         normalise.split_chained_assignments(trees)
+        normalise.split_parallel_assignments(trees)
+        normalise.branch_on_condition(trees)
         normalise.desugar_conditional_expressions(trees)
         normalise.desugar_quantifiers(trees)
         normalise.desugar_boolean_returns(trees)
